@@ -8,6 +8,7 @@ import (
 	"sort"
 	"strconv"
 	"strings"
+	"time"
 
 	"verif/harness/mc"
 
@@ -573,7 +574,10 @@ const (
 	c20MeanTol   = 1e-6 // |mean of the categories - 1|
 	c20OrderTol  = 1e-9 // a later category may be smaller than an earlier one by at most this (rounding)
 	c20SeriesAbs = 1e-7 // |IncompleteGamma - series definition|
-	c20SeriesRel = 1e-5 // and relative, where the value is representable well above the denormals
+	// a call of IncompleteGamma is a few hundred floating point operations; one that has not returned after
+	// this long is in a loop whose exit test cannot become true any more (seven orders of magnitude of margin)
+	c20ReturnDeadline = 30 * time.Second
+	c20SeriesRel      = 1e-5 // and relative, where the value is representable well above the denormals
 )
 
 func c20DiscreteGamma(c *mc.Ctx, cs c20Case) {
@@ -657,6 +661,11 @@ func c20SeriesP(a, x float64) float64 {
 	if x == 0 {
 		return 0
 	}
+	if x > 1e6 && a <= 1000 {
+		// the upper tail 1-P is below x^a e^-x < e^(-x/2) here: P is 1 to more than 300 decimals (the sum
+		// below would need x terms and loses its leading term to cancellation)
+		return 1
+	}
 	n0 := math.Floor(x - a)
 	if n0 < 0 {
 		n0 = 0
@@ -695,6 +704,10 @@ func c20XGrid(a float64) []float64 {
 	for _, x := range []float64{2.2250738585072014e-308, 2.2250738585072009e-308, 1e-310, 1e-320, 5e-324} {
 		set[x] = true
 	}
+	// far above the grid, up to the largest double: x^a e^-x underflows, x*x overflows beyond 1.34e154
+	for _, x := range []float64{1e7, 1e8, 1e10, 1e12, 1e15, 1e20, 1e30, 1e50, 1e100, 1e150, 1e153, 1e154, 1.3e154, 1.4e154, 1e155, 1e160, 1e200, 1e300, math.MaxFloat64} {
+		set[x] = true
+	}
 	for _, ctr := range []float64{1, a} { // both sides of the two tests that select series / continued fraction
 		for _, d := range []float64{1e-3, 1e-2, 1e-1} {
 			set[ctr*(1-d)] = true
@@ -720,7 +733,14 @@ func c20IncompleteGamma(c *mc.Ctx, cs c20Case) {
 		c.Mark(pt)
 		c.Eval()
 		var got float64
-		if pn, msg := mc.Guard(func() { got = models.IncompleteGamma(x, a, lg) }); pn {
+		var res float64 // written by the call's own goroutine; read only once it has returned
+		returned, pn, msg := mc.GuardReturns(func() { res = models.IncompleteGamma(x, a, lg) }, c20ReturnDeadline)
+		if !returned {
+			c.Violation("C20/IncompleteGamma/does-not-return", fmt.Sprintf("IncompleteGamma(x=%v, alpha=%v, lnGamma(alpha)=%v) has not returned after %v (a call takes microseconds)", x, a, lg, c20ReturnDeadline), pt)
+			return
+		}
+		got = res
+		if pn {
 			c.Violation("C20/IncompleteGamma/panic/"+mc.PanicSite(msg), fmt.Sprintf("%s; IncompleteGamma(x=%v, alpha=%v, lnGamma(alpha)=%v)", msg, x, a, lg), cs)
 			return
 		}
@@ -1077,7 +1097,7 @@ func init() {
 			"stats.Dirichlet: every ordered triple of shapes {0.01,0.2,0.5,0.99,1,1.01,2,10,100} (b = 1 per shape-1 component, 2 per other) under mid,ext,small with e=2 (thorough 5) and under low,high with e=1 (thorough 2), requested totals {1,3,0.25,1000} rotating; 27 vectors (a,b,a,b), a in the 9 shapes, b in {.5,1,2}, under mid e=2; thorough also 27 vectors (a,b,1,b,a) and all 625 4-vectors over {0.2,0.99,1,2,100} under ext e=2. stats.Dirichlet1: 3..6 values x 4 totals x {mid,low,high,all9}. " +
 			"Invalid parameters: Dirichlet with one component (each position of 3, one of 4) or all 3 components in {NaN,+Inf,0,-0,-1,-0.5,-Inf} next to shape-1 components, with 0 and 1 component, Dirichlet1 with nvalues in {-3,-1,0,1}: every sequence of <=10 answers over inv. models.GenerateRates(discrete gamma) for the 9 shapes x ncat 2..4 (thorough 6) x 1..3 (4) sites with every category answer of rand.Intn. " +
 			"Seeded part - the real math/rand stream for seeds 0..15 (thorough 0..127): both weight builders and Dirichlet1 for lengths {3,4,5,10,100,1000}, for seeds 0,1 (thorough 0..7) every length 3..300 and b-1,b,b+1 for b in {512,1024,2048,3072,4096,8192}, also after earlier calls of the same operation for longer / shorter inputs in the same process (4 call histories, seeds 0,1), Dirichlet for 81 shape triples and 9 twelve-component vectors per seed. " +
-			"Deterministic part - models.DiscreteGamma for 29 shapes in [0.01,100] ({1,1.5,2,3,5,7}x10^k for k=-2..1, 0.99, 0.999999, 1.000001, 1.01, 100; thorough: plus the 401 shapes 10^(-2+i/100)) x ncat 2..32; models.IncompleteGamma(x, a, lnGamma(a)) for a in those shapes and shapes+1, x in {0} U {10^(k/4), k=-48..24} U {1, a, (1 +- d), a(1 +- d) for d in 1e-3,1e-2,1e-1}. " +
+			"Deterministic part - models.DiscreteGamma for 29 shapes in [0.01,100] ({1,1.5,2,3,5,7}x10^k for k=-2..1, 0.99, 0.999999, 1.000001, 1.01, 100; thorough: plus the 401 shapes 10^(-2+i/100)) x ncat 2..32; models.IncompleteGamma(x, a, lnGamma(a)) for a in those shapes and shapes+1, x in {0} U {10^(k/4), k=-48..24} U {1, a, (1 +- d), a(1 +- d) for d in 1e-3,1e-2,1e-1} U 17 tiny x down to the smallest subnormal U 19 huge x from 1e7 to the largest double (each call must return: one that has not after 30 s - seven orders of magnitude above its cost - is reported as not returning). " +
 			"Oracles: weights: one per site, each finite and > 0, |sum-L| <= 1e-9 L; Dirichlet: no error, one value per parameter, |sum-total| <= 1e-9 total; invalid parameters (a component that is not a positive finite real, fewer than 2 components) => an error is returned (a tree in which every answer sequence exhausts the budget without the call returning is a call that never reports the error); categories: finite, >= 0 (exact), r[i+1] >= r[i]-1e-9, |mean-1| <= 1e-6; IncompleteGamma: in [0,1] (exact), non-decreasing along the x grid (1e-9), within 1e-7 absolute and 1e-5 relative of the harness' own summation of x^a e^-x sum_n x^n/Gamma(a+n+1). " +
 			"states/transitions are nodes/edges of the RNG choice trees; distinct_nontrivial = distinct (case, answer sequence) leaves that returned a sample which was checked, plus distinct deterministic lattice points and seeded runs.",
 		Assumptions: []string{
